@@ -120,3 +120,29 @@ def power(ctx, x, y):
         ctx.add_axiom(z3.Implies(z3.And(y == -1, x != 0), r == 1 / x), "x^-1 = 1/x")
         ctx.add_axiom(z3.Implies(z3.And(y * 2 == 1, x >= 0), z3.And(r >= 0, r * r == x)), "x^(1/2) = sqrt(x)")
     return r
+
+
+RECIP = z3.Function("recip", R, R)
+
+
+def recip(ctx, y):
+    """1 / y for a non-literal y as the atom recip(y) with  y * recip(y) = 1  (y != 0): keeps quotients polynomial, so that
+    sum-of-monomials normalisation treats (a - b)/l and a/l - b/l alike"""
+    ys = z3.simplify(y)
+    if z3.is_rational_value(ys) or z3.is_int_value(ys):
+        return 1 / ys
+    r = RECIP(ys)
+    if ctx is not None:
+        key = ("recip", ys.get_id())
+        if key not in ctx.ghost:
+            ctx.ghost[key] = ys
+            ctx.add_axiom(z3.Implies(ys != 0, ys * r == 1), "y * (1/y) = 1")
+            ctx.add_axiom(z3.Implies(ys > 0, r > 0), "1/y > 0 for y > 0")
+    return r
+
+
+def rdiv(ctx, x, y):
+    ys = z3.simplify(y)
+    if z3.is_rational_value(ys) or z3.is_int_value(ys):
+        return x / ys
+    return x * recip(ctx, ys)
